@@ -377,7 +377,12 @@ def check_exact(out, net, R, mix, wit, ref=None):
 def check_perturbed(out, net, R, mix, wit, delta, dmin, ref=None):
     e, wid, cnt = truth_errors(net, R)
     lin = linear(net)
-    bound = TOL_M if lin else C_BOUND * delta * delta / dmin + TOL_M
+    # second-order term of the one Gauss-Newton step: ~ delta^2 / D per observation, carried into the coordinates by
+    # the geometry of the network; C_BOUND covers well-conditioned networks, the condition number of the reference
+    # system (whitened design matrix, own Jacobian) scales it for weak ones
+    amp = max(1.0, (ref.kappa / 30.0) if (ref is not None and getattr(ref, "kappa", None) and np.isfinite(ref.kappa)) else 1.0)
+    bound = TOL_M if lin else C_BOUND * amp * delta * delta / dmin + TOL_M
+    out.ratio("b: amplification factor max(1, kappa/30) (of 1000)", amp, 1000.0)
     name = "b: |adjusted-truth| / 1e-6 m (linear networks)" if lin else "b: |adjusted-truth| / (10 delta^2/Dmin + 1e-6 m)"
     out.ratio(name, e, bound)
     if R["rejected"]:
@@ -389,7 +394,7 @@ def check_perturbed(out, net, R, mix, wit, delta, dmin, ref=None):
         out.violation("reproduce:%s:perturbed%s" % (mix, sfx(R, ref)),
                       "error-free network, approximate coordinates off by <= %.3g m: after gama-g3's single Gauss-Newton "
                       "step max |adjusted-truth| = %.3g m at %s (bound %.3g m = %s, D_min %.1f m)" % (
-                          delta, e, wid, bound, "1e-6 (linear model)" if lin else "10 d^2/D_min + 1e-6", dmin), wit)
+                          delta, e, wid, bound, "1e-6 (linear model)" if lin else "10 max(1, kappa/30) d^2/D_min + 1e-6, kappa %.3g" % (ref.kappa if ref is not None else float("nan")), dmin), wit)
         return False
     return True
 
@@ -991,7 +996,7 @@ def run(tier, seed, only=None):
         "difference of the azimuths of the right and the left target in the station's horizon, height = H - geoid",
         "adjusted angles / zenith angles / azimuths are not printed by gama-g3 (empty elements): their residuals are covered only "
         "through the dumped system (relation f) and the coordinates",
-        "bound for relation b: 10 delta^2 / D_min + 1e-6 m, D_min the shortest sight; vector/xyz-only networks 1e-6 m",
+        "bound for relation b: 10 max(1, kappa/30) delta^2 / D_min + 1e-6 m, D_min the shortest sight, kappa the condition number of the reference system; vector/xyz-only networks 1e-6 m (the sharper oracle for perturbed networks is the reference Gauss-Newton step)",
         "numerical tolerance (1e-9 + 100 eps kappa^2) x 10 x scale, kappa from the numpy SVD of the whitened reference Jacobian; "
         "floors from the printed precision of each field",
         "networks are admitted only if the reference rank is unambiguous and kappa <= 2e3 (terrestrial-only free networks have "
